@@ -1,6 +1,7 @@
 package otto
 
 import (
+	"math"
 	"reflect"
 	"strconv"
 )
@@ -30,19 +31,27 @@ func (o goSliceObject) getValue(index int64) (reflect.Value, bool) {
 	return reflect.Value{}, false
 }
 
-func (o *goSliceObject) setLength(value Value) {
+func (o *goSliceObject) setLength(rt *runtime, value Value) {
 	want, err := value.ToInteger()
 	if err != nil {
-		panic(err)
+		panic(rt.panicTypeError("%s", err.Error()))
+	}
+	if want < 0 || want > math.MaxInt32 {
+		panic(rt.panicRangeError("Invalid array length"))
 	}
 
 	wantInt := int(want)
 	switch {
 	case wantInt == o.value.Len():
 		// No change needed.
-	case wantInt < o.value.Cap():
+	case wantInt <= o.value.Cap():
 		// Fits in current capacity.
-		o.value.SetLen(wantInt)
+		if o.value.CanSet() {
+			o.value.SetLen(wantInt)
+		} else {
+			// A slice that was passed by value is not addressable.
+			o.value = o.value.Slice(0, wantInt)
+		}
 	default:
 		// Needs expanding.
 		newSlice := reflect.MakeSlice(o.value.Type(), wantInt, wantInt)
@@ -51,10 +60,14 @@ func (o *goSliceObject) setLength(value Value) {
 	}
 }
 
-func (o *goSliceObject) setValue(index int64, value Value) bool {
+func (o *goSliceObject) setValue(rt *runtime, index int64, value Value) bool {
 	reflectValue, err := value.toReflectValue(o.value.Type().Elem())
 	if err != nil {
-		panic(err)
+		panic(rt.panicConversionError(err))
+	}
+	if !reflectValue.IsValid() {
+		// undefined / null for an element type that has no such value.
+		reflectValue = reflect.Zero(o.value.Type().Elem())
 	}
 
 	indexValue, exists := o.getValue(index)
@@ -119,11 +132,17 @@ func goSliceEnumerate(obj *object, all bool, each func(string) bool) {
 }
 
 func goSliceDefineOwnProperty(obj *object, name string, descriptor property, throw bool) bool {
-	if name == propertyLength {
-		obj.value.(*goSliceObject).setLength(descriptor.value.(Value))
-		return true
-	} else if index := stringToArrayIndex(name); index >= 0 {
-		if obj.value.(*goSliceObject).setValue(index, descriptor.value.(Value)) {
+	if name == propertyLength || stringToArrayIndex(name) >= 0 {
+		// Only a value can be stored: no accessors, no attribute changes.
+		value, ok := descriptor.value.(Value)
+		if !ok {
+			return obj.runtime.typeErrorResult(throw)
+		}
+		if name == propertyLength {
+			obj.value.(*goSliceObject).setLength(obj.runtime, value)
+			return true
+		}
+		if obj.value.(*goSliceObject).setValue(obj.runtime, stringToArrayIndex(name), value) {
 			return true
 		}
 		return obj.runtime.typeErrorResult(throw)
